@@ -4,7 +4,8 @@
    Only statements + `exact`; proofs in IO/NatSortProofs.v, IO/DeterminismProofs.v,
    IO/DeterminismSrc.v (+ Gen/C20SrcFacts.v, regenerated from /repo on every run). *)
 From Coq Require Import String Ascii List NArith ZArith Bool Permutation Sorted.
-From PyRTL Require Import IO.NatSort IO.NatSortProofs IO.Determinism IO.DeterminismProofs.
+From PyRTL Require Import IO.NatSort IO.NatSortProofs IO.NatSortTyped IO.Determinism IO.DeterminismProofs
+  IO.DeterminismRefuted IO.DeterminismInj Gen.C20Src IO.DeterminismSrc.
 Import ListNotations.
 
 (* ---- (1) Python's sorted(key=) on a set: the result does not depend on the
@@ -34,6 +35,17 @@ Proof.
 Qed.
 Print Assumptions C20_sort_by_is_stable_sort.
 
+(* whatever stable sort CPython uses for sorted() (Timsort), its result is the model's:
+   a sorted permutation that keeps the input order inside each key class is unique *)
+Theorem C20_any_stable_sort_is_sort_by :
+  forall (A K : Type) (key : A -> K) (ltb : K -> K -> bool), strict_total ltb ->
+  forall l l' : list A,
+  Permutation l' l -> StronglySorted (le_key key ltb) l' ->
+  (forall k, filter (same_class key ltb k) l' = filter (same_class key ltb k) l) ->
+  l' = sort_by key ltb l.
+Proof. exact (@any_stable_sort_is_sort_by). Qed.
+Print Assumptions C20_any_stable_sort_is_sort_by.
+
 (* the orders used are strict total orders (so `sorted` is well defined on them) *)
 Theorem C20_key_orders_strict_total :
   strict_total key_ltb /\ strict_total key2_ltb /\ strict_total str_ltb.
@@ -46,6 +58,18 @@ Theorem C20_natural_key_injective_on : forall s s' : name,
   natural_key s = natural_key s' -> s = s'.
 Proof. exact natural_key_injective_on. Qed.
 Print Assumptions C20_natural_key_injective_on.
+
+(* a natural key is text, number, text, ..., text: comparing two keys never compares a str
+   with an int (no TypeError in Python; the model's convention for that case is irrelevant) *)
+Theorem C20_natural_key_well_typed : forall (mixed : comparison) (s s' : name),
+  alternates true (natural_key s) = true /\
+  key_cmp (natural_key s) (natural_key s') =
+  lex_cmp (tok_cmp_with mixed) (natural_key s) (natural_key s').
+Proof.
+  intros mixed s s'.
+  exact (conj (natural_key_alternates s) (natural_key_cmp_never_mixed mixed s s')).
+Qed.
+Print Assumptions C20_natural_key_well_typed.
 
 (* the list key (pinned source) is NOT injective: "x01" and "x1" collide (F16) *)
 Theorem C20_natural_key_collision_refuted :
@@ -150,3 +174,164 @@ Theorem C20_vcd_text_perm_invariant :
   vcd_text tkey ltb present valid prefix render_var tracked' items'.
 Proof. exact (@vcd_text_perm_invariant). Qed.
 Print Assumptions C20_vcd_text_perm_invariant.
+
+(* ================================================================== *)
+(* Theorems about the definitions regenerated from /repo (Gen/C20Src.v): the key
+   functions, the presentation order and the identifier rule the code has NOW. *)
+
+Theorem C20_src_natural_key_injective : forall s s' : name,
+  src_natural_key s = src_natural_key s' -> s = s'.
+Proof. exact src_natural_key_injective. Qed.
+Print Assumptions C20_src_natural_key_injective.
+
+Theorem C20_src_trace_key_injective : forall s s' : name,
+  src_trace_key s = src_trace_key s' -> s = s'.
+Proof. exact src_trace_key_injective. Qed.
+Print Assumptions C20_src_trace_key_injective.
+
+(* _name_sorted / _net_sorted over any set of objects carrying distinct names *)
+Theorem C20_src_name_sorted_perm_invariant : forall (A : Type) (name_of : A -> name) (l l' : list A),
+  NoDup (map name_of l) -> Permutation l l' ->
+  sort_by (fun x => src_natural_key (name_of x)) src_natural_key_ltb l =
+  sort_by (fun x => src_natural_key (name_of x)) src_natural_key_ltb l'.
+Proof. exact src_name_sorted_perm_invariant. Qed.
+Print Assumptions C20_src_name_sorted_perm_invariant.
+
+(* the sanitised identifiers (Verilog / testbench / VCD) do not depend on the schedule,
+   however many names need sanitising *)
+Theorem C20_src_sanitizer_names_perm_invariant : forall pres pres',
+  Permutation pres pres' ->
+  sanitize_all src_verilog_valid src_prefix_verilog (src_present_verilog pres) =
+  sanitize_all src_verilog_valid src_prefix_verilog (src_present_verilog pres')
+  /\ sanitize_all src_verilog_valid src_prefix_vcd (src_present_vcd pres) =
+     sanitize_all src_verilog_valid src_prefix_vcd (src_present_vcd pres').
+Proof.
+  intros pres pres' P.
+  exact (conj (src_verilog_names_perm_invariant pres pres' P) (src_vcd_names_perm_invariant pres pres' P)).
+Qed.
+Print Assumptions C20_src_sanitizer_names_perm_invariant.
+
+(* output_to_verilog: same text for every iteration order of wirevector_set and logic *)
+Theorem C20_src_verilog_text_perm_invariant : forall wsecs nsecs ws ws' ns ns',
+  Permutation ws ws' -> Permutation ns ns' ->
+  NoDup (map (fun w => export_vn src_present_verilog src_verilog_valid src_prefix_verilog ws (wname w)) ws) ->
+  NoDup (map (fun n => nsort (rename_n (export_vn src_present_verilog src_verilog_valid src_prefix_verilog ws) n)) ns) ->
+  export_text src_natural_key src_natural_key_ltb src_present_verilog src_verilog_valid src_prefix_verilog
+              wsecs nsecs ws ns =
+  export_text src_natural_key src_natural_key_ltb src_present_verilog src_verilog_valid src_prefix_verilog
+              wsecs nsecs ws' ns'.
+Proof. exact src_verilog_text_perm_invariant. Qed.
+Print Assumptions C20_src_verilog_text_perm_invariant.
+
+(* ... with hypotheses on the design only (designs without memory-write ports): distinct
+   wire names none of which already looks like a generated identifier, one net per wire *)
+Theorem C20_src_verilog_text_perm_invariant_names : forall wsecs nsecs ws ws' ns ns',
+  Permutation ws ws' -> Permutation ns ns' ->
+  NoDup (map wname ws) ->
+  (forall w, In w ws -> has_prefix src_prefix_verilog (wname w) = false) ->
+  (forall n, In n ns -> nraw n = false /\ In (nsort n) (map wname ws)) ->
+  NoDup (map nsort ns) ->
+  export_text src_natural_key src_natural_key_ltb src_present_verilog src_verilog_valid src_prefix_verilog
+              wsecs nsecs ws ns =
+  export_text src_natural_key src_natural_key_ltb src_present_verilog src_verilog_valid src_prefix_verilog
+              wsecs nsecs ws' ns'.
+Proof. exact src_verilog_text_perm_invariant_names. Qed.
+Print Assumptions C20_src_verilog_text_perm_invariant_names.
+
+(* the sanitizer never maps two presented names to one identifier *)
+Theorem C20_sanitizer_injective : forall (valid : name -> bool) (prefix : name) pres,
+  NoDup pres -> (forall s, In s pres -> has_prefix prefix s = false) ->
+  forall a b, In a pres -> In b pres ->
+  varname (sanitize_all valid prefix pres) a = varname (sanitize_all valid prefix pres) b -> a = b.
+Proof. exact sanitize_injective. Qed.
+Print Assumptions C20_sanitizer_injective.
+
+Theorem C20_src_testbench_text_perm_invariant : forall wsecs nsecs ws ws' ns ns',
+  Permutation ws ws' -> Permutation ns ns' ->
+  NoDup (map (fun w => export_vn src_present_testbench src_verilog_valid src_prefix_testbench ws (wname w)) ws) ->
+  NoDup (map (fun n => nsort (rename_n (export_vn src_present_testbench src_verilog_valid src_prefix_testbench ws) n)) ns) ->
+  export_text src_natural_key src_natural_key_ltb src_present_testbench src_verilog_valid src_prefix_testbench
+              wsecs nsecs ws ns =
+  export_text src_natural_key src_natural_key_ltb src_present_testbench src_verilog_valid src_prefix_testbench
+              wsecs nsecs ws' ns'.
+Proof. exact src_testbench_text_perm_invariant. Qed.
+Print Assumptions C20_src_testbench_text_perm_invariant.
+
+Theorem C20_src_trace_text_perm_invariant : forall render_line fmt (items items' : list titem),
+  Permutation items items' -> NoDup (map fst items) ->
+  trace_text src_trace_key src_trace_key_ltb render_line fmt items =
+  trace_text src_trace_key src_trace_key_ltb render_line fmt items'.
+Proof. exact src_trace_text_perm_invariant. Qed.
+Print Assumptions C20_src_trace_text_perm_invariant.
+
+Theorem C20_src_vcd_text_perm_invariant : forall render_var tracked tracked' (items items' : list titem),
+  Permutation tracked tracked' -> Permutation items items' -> NoDup (map fst items) ->
+  vcd_text src_trace_key src_trace_key_ltb src_present_vcd src_verilog_valid src_prefix_vcd render_var tracked items =
+  vcd_text src_trace_key src_trace_key_ltb src_present_vcd src_verilog_valid src_prefix_vcd render_var tracked' items'.
+Proof. exact src_vcd_text_perm_invariant. Qed.
+Print Assumptions C20_src_vcd_text_perm_invariant.
+
+(* STILL schedule-dependent in the source: two memory-write ports sharing one enable wire
+   tie under _net_sorted (key = str(args[2]) only) and are emitted in set order *)
+Theorem C20_src_shared_write_enable_refuted : exists ns ns',
+  Permutation ns ns' /\ NoDup ns /\
+  export_text src_natural_key src_natural_key_ltb src_present_verilog src_verilog_valid src_prefix_verilog
+              [] [demo_nsec] [] ns <>
+  export_text src_natural_key src_natural_key_ltb src_present_verilog src_verilog_valid src_prefix_verilog
+              [] [demo_nsec] [] ns'.
+Proof. exact src_shared_write_enable_refuted. Qed.
+Print Assumptions C20_src_shared_write_enable_refuted.
+
+(* ---- why the repairs were needed (models of the code before F15 / F16) ---- *)
+Theorem C20_sanitizer_set_order_refuted : exists (valid : name -> bool) prefix pres pres' s,
+  Permutation pres pres' /\ count_invalid valid pres = 2%N /\
+  varname (sanitize_all valid prefix (present_set_order pres)) s <>
+  varname (sanitize_all valid prefix (present_set_order pres')) s.
+Proof. exact sanitizer_set_order_refuted. Qed.
+Print Assumptions C20_sanitizer_set_order_refuted.
+
+Theorem C20_natural_key_tie_order_refuted : exists l l' : list name,
+  Permutation l l' /\ NoDup l /\
+  sort_by natural_key key_ltb l <> sort_by natural_key key_ltb l'.
+Proof. exact natural_key_tie_order_refuted. Qed.
+Print Assumptions C20_natural_key_tie_order_refuted.
+
+(* ---- non-vacuity: a module with two names needing sanitising ("w 0", "module"), a
+   leading-zero family (x1, x01, x001) and three nets; the NoDup hypotheses of
+   C20_src_verilog_text_perm_invariant hold and two schedules give the same text ---- *)
+Definition ex_w (s : string) (k : N) : witem := {| wname := nm s; wkind := k; wwidth := 1 |}.
+Definition ex_n (s : string) : nitem := {| nsort := nm s; nraw := false; nop := 0; nnames := [nm s] |}.
+Definition ex_ws : list witem :=
+  [ex_w "x01" 0; ex_w "w 0" 4; ex_w "x1" 0; ex_w "module" 1; ex_w "x001" 0; ex_w "tmp10" 4; ex_w "tmp9" 4].
+Definition ex_ws' : list witem :=
+  [ex_w "tmp9" 4; ex_w "module" 1; ex_w "x001" 0; ex_w "x1" 0; ex_w "tmp10" 4; ex_w "w 0" 4; ex_w "x01" 0].
+Definition ex_ns : list nitem := [ex_n "w 0"; ex_n "module"; ex_n "tmp10"].
+Definition ex_ns' : list nitem := [ex_n "tmp10"; ex_n "w 0"; ex_n "module"].
+Definition ex_wsec (k : N) : section witem :=
+  {| s_head := nm "#"; s_sel := fun w => N.eqb (wkind w) k; s_render := fun w => (wname w ++ nm ";")%list |}.
+Definition ex_nsec : section nitem :=
+  {| s_head := nm "#"; s_sel := fun _ => true; s_render := fun n => (nsort n ++ nm ";")%list |}.
+Definition ex_text ws ns : string :=
+  string_of_list_ascii
+    (export_text src_natural_key src_natural_key_ltb src_present_verilog src_verilog_valid src_prefix_verilog
+                 [ex_wsec 0; ex_wsec 1; ex_wsec 4] [ex_nsec] ws ns).
+
+Example C20_example_text :
+  ex_text ex_ws ex_ns = "#x001;x01;x1;#_ver_out_tmp_0;#_ver_out_tmp_1;tmp9;tmp10;#_ver_out_tmp_0;_ver_out_tmp_1;tmp10;"%string
+  /\ ex_text ex_ws' ex_ns' = ex_text ex_ws ex_ns.
+Proof. vm_compute. split; reflexivity. Qed.
+
+Example C20_example_hypotheses :
+  NoDup (map wname ex_ws)
+  /\ (forall w, In w ex_ws -> has_prefix src_prefix_verilog (wname w) = false)
+  /\ (forall n, In n ex_ns -> nraw n = false /\ In (nsort n) (map wname ex_ws))
+  /\ NoDup (map nsort ex_ns)
+  /\ count_invalid src_verilog_valid (map wname ex_ws) = 2%N
+  /\ forallb no_leading_zero (map wname ex_ws) = false.
+Proof.
+  split. apply nodupb_NoDup. vm_compute. reflexivity.
+  split. intros w H. repeat (destruct H as [H|H]; [subst w; vm_compute; reflexivity|]). contradiction.
+  split. intros n H. repeat (destruct H as [H|H]; [subst n; split; [reflexivity|vm_compute; tauto]|]). contradiction.
+  split. apply nodupb_NoDup. vm_compute. reflexivity.
+  split; vm_compute; reflexivity.
+Qed.
